@@ -430,6 +430,17 @@ class Analysis:
         site = self.sites.setdefault(node.id, Site(node, kind, text))
         cap = self.cap_of(st, key)
         if cap is None or offset is None or extent is None:
+            if cap is not None and node.k == "CallExpr":
+                # the amount (or the place) is an unsigned difference that can wrap: with the witness the callee is told it may
+                # write about 2^bits bytes
+                for a_ in C.call_args(node):
+                    wit = self.wrap_witness(st, a_)
+                    if wit is not None:
+                        site.results.append((False, True, False,
+                                             "the argument `%s` is an unsigned difference that wraps: the callee is handed a bound of "
+                                             "about 2^%d and writes as if the buffer were endless" % (a_.src, a_.strip_all_casts().get("bits") or 64),
+                                             None, wit))
+                        return
             site.results.append((False, False, True, "capacity/offset/extent of `%s` not expressible" % text,
                                  None, None))
             return
